@@ -14,14 +14,84 @@ package main
 import (
 	"fmt"
 	"go/ast"
+	"go/parser"
+	"go/printer"
+	"go/token"
+	"os"
+	"path/filepath"
 	"strings"
 
 	"ssvharness/internal/gen"
 )
 
+// apkg: the facts of C11 are shapes of function bodies, so the packages are only PARSED (no type-check:
+// type-checking `service` from source pulls in the whole module and costs minutes on a loaded machine).
+type apkg struct {
+	dir   string
+	fset  *token.FileSet
+	files []*ast.File
+}
+
+var astCache = map[string]*apkg{}
+
+func loadAST(repo, dir string) (*apkg, error) {
+	if p, ok := astCache[dir]; ok {
+		return p, nil
+	}
+	full := filepath.Join(repo, dir)
+	ents, err := os.ReadDir(full)
+	if err != nil {
+		return nil, err
+	}
+	p := &apkg{dir: dir, fset: token.NewFileSet()}
+	for _, e := range ents {
+		n := e.Name()
+		if !strings.HasSuffix(n, ".go") || strings.HasSuffix(n, "_test.go") {
+			continue
+		}
+		f, err := parser.ParseFile(p.fset, filepath.Join(full, n), nil, parser.SkipObjectResolution)
+		if err != nil {
+			return nil, err
+		}
+		p.files = append(p.files, f)
+	}
+	astCache[dir] = p
+	return p, nil
+}
+
+// Func finds the unique declaration of a function / method (any build variant; two variants = error).
+func (p *apkg) Func(recv, name string) (*ast.FuncDecl, error) {
+	var found []*ast.FuncDecl
+	for _, f := range p.files {
+		for _, d := range f.Decls {
+			fd, ok := d.(*ast.FuncDecl)
+			if !ok || fd.Name.Name != name {
+				continue
+			}
+			if recv == "" && fd.Recv == nil {
+				found = append(found, fd)
+			}
+			if recv != "" && fd.Recv != nil && len(fd.Recv.List) == 1 &&
+				strings.TrimPrefix(p.Src(fd.Recv.List[0].Type), "*") == strings.TrimPrefix(recv, "*") {
+				found = append(found, fd)
+			}
+		}
+	}
+	if len(found) != 1 {
+		return nil, fmt.Errorf("%s: %d declarations of %s.%s", p.dir, len(found), recv, name)
+	}
+	return found[0], nil
+}
+
+func (p *apkg) Src(n ast.Node) string {
+	var sb strings.Builder
+	printer.Fprint(&sb, p.fset, n)
+	return strings.Join(strings.Fields(sb.String()), " ")
+}
+
 func main() {
 	gen.Main("C11", func(c *gen.Ctx, l *gen.Lean) error {
-		dp, err := c.Load("direct")
+		dp, err := loadAST(c.Repo, "direct")
 		if err != nil {
 			return err
 		}
@@ -37,7 +107,7 @@ func main() {
 			{"direct", "*Socks5UDPClient", "newSession"},
 			{"ss2022", "*UDPClient", "NewSession"},
 		} {
-			p, err := c.Load(it.pkg)
+			p, err := loadAST(c.Repo, it.pkg)
 			if err != nil {
 				return err
 			}
@@ -54,7 +124,7 @@ func main() {
 		l.Raw("/-- other zerocopy.UDPClient implementations: is `Packer` constructed inside NewSession? -/\n")
 		l.Raw("def clientPackerFresh : List (String × Bool) := [" + strings.Join(fresh, ", ") + "]\n")
 
-		sp, err := c.Load("service")
+		sp, err := loadAST(c.Repo, "service")
 		if err != nil {
 			return err
 		}
@@ -94,7 +164,7 @@ func recvName(fd *ast.FuncDecl) string {
 }
 
 // packerValueKind classifies the expression assigned to the Packer field.
-func packerValueKind(p *gen.Pkg, rn string, e ast.Expr) (string, error) {
+func packerValueKind(p *apkg, rn string, e ast.Expr) (string, error) {
 	switch v := e.(type) {
 	case *ast.CallExpr:
 		if id, ok := v.Fun.(*ast.Ident); ok && strings.HasPrefix(id.Name, "New") {
@@ -149,7 +219,7 @@ func packerField(cl *ast.CompositeLit) ast.Expr {
 
 // sessionLiteralPackerFresh: the function must contain exactly one non-empty UDPClientSession literal
 // whose Packer is built in place.
-func sessionLiteralPackerFresh(p *gen.Pkg, fd *ast.FuncDecl) (bool, string, error) {
+func sessionLiteralPackerFresh(p *apkg, fd *ast.FuncDecl) (bool, string, error) {
 	var lits []*ast.CompositeLit
 	ast.Inspect(fd.Body, func(n ast.Node) bool {
 		if e, ok := n.(ast.Expr); ok {
@@ -177,7 +247,7 @@ func sessionLiteralPackerFresh(p *gen.Pkg, fd *ast.FuncDecl) (bool, string, erro
 	return k == "fresh", "Packer: " + src, nil
 }
 
-func directPackerShared(p *gen.Pkg) (bool, string, error) {
+func directPackerShared(p *apkg) (bool, string, error) {
 	fd, err := p.Func("*DirectUDPClient", "NewSession")
 	if err != nil {
 		return false, "", err
@@ -234,12 +304,12 @@ func directPackerShared(p *gen.Pkg) (bool, string, error) {
 
 // ---- receive-loop step programs ----
 
-func isCall(p *gen.Pkg, e ast.Expr, src string) bool {
+func isCall(p *apkg, e ast.Expr, src string) bool {
 	ce, ok := e.(*ast.CallExpr)
 	return ok && p.Src(ce.Fun) == src
 }
 
-func exprStmtCall(p *gen.Pkg, s ast.Stmt, src string) bool {
+func exprStmtCall(p *apkg, s ast.Stmt, src string) bool {
 	es, ok := s.(*ast.ExprStmt)
 	return ok && isCall(p, es.X, src)
 }
@@ -257,13 +327,13 @@ func endsWithJump(b *ast.BlockStmt) bool {
 	return false
 }
 
-func containsSrc(p *gen.Pkg, n ast.Node, sub string) bool {
+func containsSrc(p *apkg, n ast.Node, sub string) bool {
 	return strings.Contains(p.Src(n), sub)
 }
 
 // recvProgram walks the receive function's outer `for` body (descending into the one nested
 // per-message `for` of the mmsg variants and into `if !ok { ... }`) in source order.
-func recvProgram(p *gen.Pkg, fd *ast.FuncDecl) (prog, dfr []string, err error) {
+func recvProgram(p *apkg, fd *ast.FuncDecl) (prog, dfr []string, err error) {
 	var outer *ast.ForStmt
 	for _, s := range fd.Body.List {
 		if f, ok := s.(*ast.ForStmt); ok && f.Cond == nil && f.Init == nil {
@@ -400,7 +470,7 @@ func recvProgram(p *gen.Pkg, fd *ast.FuncDecl) (prog, dfr []string, err error) {
 
 // cleanupProgram: the session goroutine's first deferred function must start with
 // s.mu.Lock(); close(natConnSendCh); delete(s.table, k); s.mu.Unlock().
-func cleanupProgram(p *gen.Pkg, fl *ast.FuncLit) ([]string, error) {
+func cleanupProgram(p *apkg, fl *ast.FuncLit) ([]string, error) {
 	for _, s := range fl.Body.List {
 		ds, ok := s.(*ast.DeferStmt)
 		if !ok {
